@@ -478,4 +478,276 @@ Proof.
   - (* Exit *)
     cbn [code_statement] in HC. apply (wrap_inv _ _ _ _ _ HC). clear HC. intros c0 HC. rinv HC. inversion HC; subst. apply inv_plain. dplain.
 Qed.
+
+(* ---------- translate: one definition label per definition ---------- *)
+Definition dnames (ds : list def) : list string := map (fun d => show_ident (dname d)) ds.
+Definition translate_inv (names : list string) (lc : N) (c : list Code) (lc' : N) : Prop :=
+  (lc <= lc')%N /\ exists gs, defs c = map pr gs /\ NoDup gs /\
+    (forall g, In g gs -> (exists n, In n names /\ g = GDef n) \/ gen_in lc lc' g) /\
+    (forall n, In n names -> In (GDef n) gs).
+
+Theorem translate_defs types : forall ds lc c lc',
+  forallb (fun d => names_ok (dbody d)) ds = true -> NoDup (dnames ds) ->
+  translate B types ds lc = Ok (c, lc') -> translate_inv (dnames ds) lc c lc'.
+Proof.
+  induction ds as [|d r IH]; intros lc c lc' NM ND H; cbn [translate] in H.
+  - inversion H; subst. split; [lia|]. exists []. repeat split; [constructor|intros g []|intros n []].
+  - cbn [forallb] in NM. apply andb_true_iff in NM as [NM1 NM2]. cbn [dnames map] in ND |- *. fold (dnames r) in ND |- *.
+    inversion ND as [|? ? NX ND']; subst. rinv H. inversion H; subst; clear H. rename l into c1, n into lc1, l0 into c2.
+    pose proof (code_statement_defs types (dbody d) NM1 _ _ _ _ E) as (L1 & g1 & E1 & N1 & I1).
+    pose proof (IH _ _ _ NM2 ND' E0) as (L2 & g2 & E2 & N2 & C2 & M2).
+    split; [lia|]. exists (GDef (show_ident (dname d)) :: g1 ++ g2). split; [|split; [|split]].
+    + rewrite defs_cons_label, defs_app, E1, E2. cbn [map]. rewrite map_app. reflexivity.
+    + constructor.
+      * intros I. apply in_app_or in I as [I|I].
+        -- destruct (I1 _ I) as (G & _). discriminate.
+        -- destruct (C2 _ I) as [(n & Hn & E')|(G & _)]; [|discriminate]. injection E' as E'. apply NX. rewrite E'. exact Hn.
+      * apply NoDup_app_intro; [exact N1|exact N2|]. intros g H1 H2. destruct (I1 _ H1) as (G & _ & KK).
+        destruct (C2 _ H2) as [(n & _ & ->)|(_ & _ & KK')]; [discriminate|lia].
+    + intros g [<-|I]; [left; eexists; split; [left; reflexivity|reflexivity]|]. apply in_app_or in I as [I|I].
+      * right. apply (gen_in_weaken lc lc1); [lia|lia|apply I1; exact I].
+      * destruct (C2 _ I) as [(n & Hn & E')|G]; [left; exists n; split; [right; exact Hn|exact E']|].
+        right. apply (gen_in_weaken lc1 lc'); [lia|lia|exact G].
+    + intros n [<-|Hn]; [left; reflexivity|]. right. apply in_or_app. right. apply M2. exact Hn.
+Qed.
+
+(* ---------- uniqueness of the texts, where the printing is injective ---------- *)
+Hypothesis Hinj : forall g1 g2, in_univ g1 -> in_univ g2 -> pr g1 = pr g2 -> g1 = g2.
+
+Definition prog_names_ok (ds : list def) : bool :=
+  forallb (fun d => lower_first (show_ident (dname d)) && names_ok (dbody d)) ds && nodup_strb (dnames ds).
+
+Theorem translate_labels_unique types ds lc c lc' :
+  prog_names_ok ds = true -> translate B types ds lc = Ok (c, lc') ->
+  NoDup (defs c) /\ (lc <= lc')%N /\
+  (forall l, In l (defs c) -> exists g, l = pr g /\ in_univ g /\ (is_gen g = true -> (lc < key g <= lc')%N)).
+Proof.
+  unfold prog_names_ok. intros G H. apply andb_true_iff in G as [G1 G2]. apply nodup_strb_NoDup in G2.
+  assert (NM : forallb (fun d => names_ok (dbody d)) ds = true).
+  { apply forallb_forall. intros d Hd. rewrite forallb_forall in G1. specialize (G1 d Hd). apply andb_true_iff in G1. tauto. }
+  assert (LF : forall n, In n (dnames ds) -> lower_first n = true).
+  { intros n Hn. unfold dnames in Hn. apply in_map_iff in Hn as (d & <- & Hd). rewrite forallb_forall in G1.
+    specialize (G1 d Hd). apply andb_true_iff in G1. tauto. }
+  destruct (translate_defs types ds lc c lc' NM G2 H) as (L & gs & E & N & C & _).
+  assert (U : forall g, In g gs -> in_univ g).
+  { intros g Hg. destruct (C _ Hg) as [(n & Hn & ->)|(_ & U & _)]; [cbn; apply LF; exact Hn|exact U]. }
+  split; [|split; [exact L|]].
+  - rewrite E. apply NoDup_map_inj_in; [|exact N]. intros x y Hx Hy. apply Hinj; apply U; assumption.
+  - intros l Hl. rewrite E in Hl. apply in_map_iff in Hl as (g & <- & Hg). exists g. split; [reflexivity|]. split; [apply U; exact Hg|].
+    intros GG. destruct (C _ Hg) as [(n & _ & ->)|(_ & _ & KK)]; [discriminate|exact KK].
+Qed.
 End LabelGen.
+Arguments lo_label {Code Temp B cdefs crefs} _.
+Arguments lo_mark {Code Temp B cdefs crefs} _.
+Arguments lo_jump {Code Temp B cdefs crefs} _.
+Arguments lo_jump_label {Code Temp B cdefs crefs} _.
+Arguments lo_jump_label_fixed {Code Temp B cdefs crefs} _.
+Arguments lo_jcc2 {Code Temp B cdefs crefs} _.
+Arguments lo_jcc1 {Code Temp B cdefs crefs} _.
+Arguments lo_load_immediate {Code Temp B cdefs crefs} _.
+Arguments lo_load_label {Code Temp B cdefs crefs} _.
+Arguments lo_add_and_jump {Code Temp B cdefs crefs} _.
+Arguments lo_arith {Code Temp B cdefs crefs} _.
+Arguments lo_mov {Code Temp B cdefs crefs} _.
+Arguments lo_print {Code Temp B cdefs crefs} _.
+Arguments lo_store_temporary {Code Temp B cdefs crefs} _.
+Arguments lo_restore_temporary {Code Temp B cdefs crefs} _.
+Arguments lo_erase {Code Temp B cdefs crefs} _.
+Arguments lo_share_n {Code Temp B cdefs crefs} _.
+Arguments lo_store {Code Temp B cdefs crefs} _.
+Arguments lo_load {Code Temp B cdefs crefs} _.
+
+(* ---------- referenced labels are defined ---------- *)
+Section LabelRefs.
+Context {Code Temp : Type} (B : backend Code Temp).
+Variables (cdefs crefs : Code -> list string).
+Notation defs := (defs cdefs).
+Notation refs := (refs crefs).
+Hypothesis LO : labels_ok B cdefs crefs.
+Variable fcall : ident -> bool.
+Definition called (l : string) : Prop := exists f, fcall f = true /\ l = show_ident f +++ "_".
+Definition ref_in (D : list string) (c : list Code) : Prop :=
+  forall l, In l (refs c) -> In l D \/ l = "cleanup" \/ called l.
+Definition calls_ok (s : stmt) : bool := stmt_check fcall (fun _ _ => true) s.
+
+Lemma ref_in_app D c1 c2 : ref_in D c1 -> ref_in D c2 -> ref_in D (c1 ++ c2).
+Proof. intros H1 H2 l Hl. unfold LabelGen.refs in Hl. rewrite flat_map_app in Hl. apply in_app_or in Hl as [Hl|Hl]; auto. Qed.
+Lemma ref_in_mono D D' c : incl D D' -> ref_in D c -> ref_in D' c.
+Proof. intros I H l Hl. destruct (H l Hl) as [X|X]; [left; apply I; exact X|right; exact X]. Qed.
+Lemma ref_in_plain D c : refs c = [] -> ref_in D c.
+Proof. intros H l Hl. rewrite H in Hl. destruct Hl. Qed.
+Lemma ref_in_only D c l : refs_only cdefs crefs c l -> In l D \/ l = "cleanup" \/ called l -> ref_in D c.
+Proof. intros [_ I] H l' Hl. apply I in Hl. destruct Hl as [<-|[]]. exact H. Qed.
+Lemma ref_in_labs lc c lc' : labs_ok cdefs crefs lc c lc' -> ref_in (defs c) c.
+Proof. intros (_ & ks & _ & _ & _ & I) l Hl. left. apply I. exact Hl. Qed.
+Lemma ref_in_label D l : ref_in D [b_label B l].
+Proof. apply ref_in_plain. apply (refs_label B cdefs crefs LO). Qed.
+Lemma ref_in_cons_label D l c : ref_in D c -> ref_in D (b_label B l :: c).
+Proof. intros H. apply (ref_in_app D [_] c); [apply ref_in_label|exact H]. Qed.
+
+Ltac inc := first [ apply incl_refl | apply incl_appl; inc | apply incl_appr; inc | apply incl_tl; inc ].
+Ltac dnorm := repeat first [rewrite (defs_app cdefs) | rewrite (defs_cons_label B cdefs crefs LO)].
+Ltac subE E := match type of E with _ = Ok (?l, _) => sub (defs l) end
+with sub D := apply (ref_in_mono D); [repeat first [rewrite (defs_app cdefs) | rewrite (defs_cons_label B cdefs crefs LO)]; inc|].
+
+Lemma urc_refs v context n lc c lc' :
+  update_reference_count B v context n lc = Ok (c, lc') -> ref_in (defs c) c.
+Proof.
+  unfold update_reference_count. intros H. rinv H. destruct n as [|[|n]].
+  - inversion H as [H1]. pose proof (lo_erase LO x lc) as L. rewrite H1 in L. apply (ref_in_labs _ _ _ L).
+  - inversion H; subst. apply ref_in_plain. reflexivity.
+  - inversion H as [H1]. pose proof (lo_share_n LO x (N.of_nat (S n)) lc) as L.
+    change (N.of_nat (S n)) with (N.pos (Pos.of_succ_nat n)) in L. rewrite H1 in L. apply (ref_in_labs _ _ _ L).
+Qed.
+Lemma cwc_refs tm context : forall lc c lc',
+  code_weakening_contraction B tm context lc = Ok (c, lc') -> ref_in (defs c) c.
+Proof.
+  induction tm as [|[b targets] r IH]; intros lc c lc' H; cbn [code_weakening_contraction] in H.
+  - inversion H; subst. apply ref_in_plain. reflexivity.
+  - destruct (bchi b).
+    + rinv H. inversion H; subst. apply ref_in_app; [sub (defs l); apply (urc_refs _ _ _ _ _ _ E)|sub (defs l0); apply (IH _ _ _ E0)].
+    + rinv H. inversion H; subst. apply ref_in_app; [sub (defs l); apply (urc_refs _ _ _ _ _ _ E)|sub (defs l0); apply (IH _ _ _ E0)].
+    + apply IH with (lc := lc) (lc' := lc'). exact H.
+Qed.
+
+Definition IHr (types : list tydecl) (s : stmt) : Prop :=
+  calls_ok s = true -> forall context lc c lc', code_statement B types s context lc = Ok (c, lc') -> ref_in (defs c) c.
+
+Lemma loop_refs types fresh ldf ctxf :
+  (forall cx lc c lc', ldf cx lc = Ok (c, lc') -> labs_ok cdefs crefs lc c lc') ->
+  forall cls,
+  Forall (fun cl => IHr types (cl_body cl)) cls ->
+  forallb (fun cl => calls_ok (cl_body cl)) cls = true ->
+  forall lc c lc',
+  cl_loop B types fresh ldf ctxf cls lc = Ok (c, lc') ->
+  ref_in (defs c) c /\ forall cl, In cl cls -> In (fresh +++ "_" +++ show_ident (cl_xtor cl)) (defs c).
+Proof.
+  intros LD. induction cls as [|[[x cx] body] r IH]; intros F NM lc c lc' H; cbn [cl_loop] in H.
+  - inversion H; subst. split; [apply ref_in_plain; reflexivity|intros cl []].
+  - inversion F as [|? ? Fb Fr]; subst. cbn [forallb cl_body snd] in NM. apply andb_true_iff in NM as [NM1 NM2].
+    rinv H. inversion H; subst; clear H. rename l into cl, n into lc1, l0 into cb, n0 into lc2, l1 into cr.
+    destruct (IH Fr NM2 _ _ _ E1) as [R M]. split.
+    + apply ref_in_cons_label. apply ref_in_app; [sub (defs cl); apply (ref_in_labs _ _ _ (LD _ _ _ _ E))|].
+      apply ref_in_app; [sub (defs cb); apply (Fb NM1 _ _ _ _ E0)|sub (defs cr); exact R].
+    + rewrite (defs_cons_label B cdefs crefs LO). intros c' [<-|Hc]; [left; reflexivity|].
+      right. rewrite !(defs_app cdefs). apply in_or_app. right. apply in_or_app. right. apply M. exact Hc.
+Qed.
+
+Lemma table_refs D cls base :
+  (forall cl, In cl cls -> In (base +++ "_" +++ show_ident (cl_xtor cl)) D) -> ref_in D (code_table B cls base).
+Proof.
+  unfold code_table. induction cls as [|cl r IH]; intros H; [apply ref_in_plain; reflexivity|]. cbn [flat_map].
+  apply ref_in_app; [|apply IH; intros c' Hc; apply H; right; exact Hc].
+  apply (ref_in_only _ _ _ (lo_jump_label_fixed LO _)). left. apply H. left. reflexivity.
+Qed.
+
+Lemma wrap_refs (e : res (list Code * N)) context c lc' :
+  rbind e (fun body => Ok (b_mark B context ++ fst body, snd body)) = Ok (c, lc') ->
+  (forall c0, e = Ok (c0, lc') -> ref_in (defs c0) c0) -> ref_in (defs c) c.
+Proof.
+  intros H K. rinv H. destruct x as [c0 l0]. cbn [fst snd] in H. inversion H; subst.
+  apply ref_in_app; [apply ref_in_plain, (lo_mark LO)|]. sub (defs c0). apply K. reflexivity.
+Qed.
+
+Ltac rplain :=
+  first [ apply ref_in_plain; first [ apply (lo_jump LO) | apply (lo_load_immediate LO) | apply (lo_add_and_jump LO)
+                                    | apply (lo_arith LO) | apply (lo_mov LO) | apply (lo_print LO) ] ].
+
+Theorem code_statement_refs types : forall s, IHr types s.
+Proof.
+  induction s using stmt_ind2; intros NM context lc c lc' HC;
+    try match goal with F : Forall _ _ |- _ => rename F into FC end.
+  - (* Substitute *)
+    cbn [code_statement] in HC. apply (wrap_refs _ _ _ _ HC). clear HC. intros c0 HC. rinv HC. inversion HC; subst; clear HC.
+    apply ref_in_app; [sub (defs l); apply (cwc_refs _ _ _ _ _ E)|].
+    apply ref_in_app; [apply ref_in_plain, (exchange_plain B cdefs crefs LO _ _ _ _ E0)|].
+    sub (defs l0). apply (IHs NM _ _ _ _ E1).
+  - (* Call *)
+    cbn [code_statement] in HC. apply (wrap_refs _ _ _ _ HC). clear HC. intros c0 HC. inversion HC; subst.
+    apply (ref_in_only _ _ _ (lo_jump_label LO _)). right. right. exists l. split; [exact NM|reflexivity].
+  - (* Let *)
+    cbn [code_statement] in HC. apply (wrap_refs _ _ _ _ HC). clear HC. intros c0 HC. rinv HC. inversion HC; subst; clear HC.
+    apply ref_in_app; [sub (defs l); apply (ref_in_labs _ _ _ (lo_store LO _ _ _ _ _ E2))|].
+    apply ref_in_app; [rplain|]. sub (defs l0). apply (IHs NM _ _ _ _ E4).
+  - (* Switch *)
+    rewrite code_switch_eq in HC. apply (wrap_refs _ _ _ _ HC). clear HC. intros c0 HC. cbv zeta in HC. rinv HC. inversion HC; subst; clear HC.
+    unfold calls_ok in NM. rewrite stmt_check_switch in NM. cbn [andb] in NM.
+    destruct (loop_refs types _ _ _ (fun cx lc c lc' => lo_load LO cx _ lc c lc') cls FC NM _ _ _ E0) as [R M].
+    apply ref_in_app.
+    + match type of E with (if ?b then _ else _) = _ => destruct b end; [inversion E; subst; apply ref_in_plain; reflexivity|].
+      rinv E. inversion E; subst. apply ref_in_app; [|apply ref_in_app; rplain].
+      apply (ref_in_only _ _ _ (lo_load_label LO _ _)). left. dnorm.
+      apply in_or_app. right. left. reflexivity.
+    + apply ref_in_cons_label. apply ref_in_app; [|sub (defs l); exact R].
+      match goal with |- context [if ?b then _ else _] => destruct b end; [apply ref_in_plain; reflexivity|].
+      apply table_refs. intros cl Hc. dnorm.
+      apply in_or_app. right. right. apply in_or_app. right. apply M. exact Hc.
+  - (* Create *)
+    destruct env as [env|]; [|cbn [code_statement] in HC; rinv HC; discriminate].
+    rewrite code_create_eq in HC. apply (wrap_refs _ _ _ _ HC). clear HC. intros c0 HC. cbv zeta in HC. rinv HC. inversion HC; subst; clear HC.
+    unfold calls_ok in NM. rewrite stmt_check_create in NM. cbn [andb] in NM. apply andb_true_iff in NM as [NM NMn].
+    destruct (loop_refs types _ _ _ (fun cx lc c lc' => lo_load LO _ cx lc c lc') cls FC NM _ _ _ E3) as [R M].
+    apply ref_in_app; [subE E0; apply (ref_in_labs _ _ _ (lo_store LO _ _ _ _ _ E0))|].
+    apply ref_in_app.
+    { apply (ref_in_only _ _ _ (lo_load_label LO _ _)). left. dnorm.
+      apply in_or_app. right. apply in_or_app. right. apply in_or_app. right. left. reflexivity. }
+    apply ref_in_app; [subE E2; apply (IHs NMn _ _ _ _ E2)|].
+    apply ref_in_cons_label. apply ref_in_app; [|subE E3; exact R].
+    match goal with |- context [if ?b then _ else _] => destruct b end; [apply ref_in_plain; reflexivity|].
+    apply table_refs. intros cl Hc. dnorm.
+    apply in_or_app. right. apply in_or_app. right. apply in_or_app. right. right. apply in_or_app. right. apply M. exact Hc.
+  - (* Invoke *)
+    cbn [code_statement] in HC. apply (wrap_refs _ _ _ _ HC). clear HC. intros c0 HC. rinv HC.
+    destruct (Nat.leb (List.length (txtors x0)) 1); [inversion HC; subst; rplain|].
+    rinv HC. inversion HC; subst. rplain.
+  - (* Literal *)
+    cbn [code_statement] in HC. apply (wrap_refs _ _ _ _ HC). clear HC. intros c0 HC. rinv HC. inversion HC; subst; clear HC.
+    apply ref_in_app; [rplain|]. sub (defs l). apply (IHs NM _ _ _ _ E0).
+  - (* Op *)
+    cbn [code_statement] in HC. apply (wrap_refs _ _ _ _ HC). clear HC. intros c0 HC. rinv HC. inversion HC; subst; clear HC.
+    apply ref_in_app; [rplain|]. sub (defs l). apply (IHs NM _ _ _ _ E2).
+  - (* PrintI64 *)
+    cbn [code_statement] in HC. apply (wrap_refs _ _ _ _ HC). clear HC. intros c0 HC. rinv HC. inversion HC; subst; clear HC.
+    apply ref_in_app; [rplain|]. sub (defs l). apply (IHs NM _ _ _ _ E0).
+  - (* IfC *)
+    cbn [code_statement] in HC. apply (wrap_refs _ _ _ _ HC). clear HC. intros c0 HC. rinv HC. inversion HC; subst; clear HC.
+    cbn [calls_ok stmt_check] in NM. apply andb_true_iff in NM as [NM1 NM2].
+    assert (IN : In ("lab" +++ dec (lc + 1)) (defs (x0 ++ l ++ [b_label B ("lab" +++ dec (lc + 1))] ++ l0))).
+    { rewrite !(defs_app cdefs), (defs_label B cdefs crefs LO). apply in_or_app. right. apply in_or_app. right. left. reflexivity. }
+    apply ref_in_app.
+    + destruct b; rinv E0; inversion E0; subst.
+      * apply (ref_in_only _ _ _ (lo_jcc2 LO _ _ _ _)). left. exact IN.
+      * apply (ref_in_only _ _ _ (lo_jcc1 LO _ _ _)). left. exact IN.
+    + apply ref_in_app; [sub (defs l); apply (IHs2 NM2 _ _ _ _ E1)|].
+      apply ref_in_cons_label. sub (defs l0). apply (IHs1 NM1 _ _ _ _ E2).
+  - (* Exit *)
+    cbn [code_statement] in HC. apply (wrap_refs _ _ _ _ HC). clear HC. intros c0 HC. rinv HC. inversion HC; subst.
+    apply ref_in_app; [rplain|]. apply (ref_in_only _ _ _ (lo_jump_label LO _)). right. left. reflexivity.
+Qed.
+
+Theorem translate_refs types : forall ds lc c lc',
+  forallb (fun d => calls_ok (dbody d)) ds = true ->
+  translate B types ds lc = Ok (c, lc') ->
+  ref_in (defs c) c /\ forall d, In d ds -> In (show_ident (dname d) +++ "_") (defs c).
+Proof.
+  induction ds as [|d r IH]; intros lc c lc' NM H; cbn [translate] in H.
+  - inversion H; subst. split; [apply ref_in_plain; reflexivity|intros d []].
+  - cbn [forallb] in NM. apply andb_true_iff in NM as [NM1 NM2]. rinv H. inversion H; subst; clear H.
+    destruct (IH _ _ _ NM2 E0) as [R M]. split.
+    + apply ref_in_cons_label. apply ref_in_app; [sub (defs l); apply (code_statement_refs types _ NM1 _ _ _ _ E)|sub (defs l0); exact R].
+    + rewrite (defs_cons_label B cdefs crefs LO). intros d' [<-|Hd]; [left; reflexivity|]. right. rewrite (defs_app cdefs).
+      apply in_or_app. right. apply M. exact Hd.
+Qed.
+End LabelRefs.
+
+(* every referenced label is defined, or is the routine's `cleanup`: for programs whose calls go to definitions *)
+Definition prog_calls_ok (ds : list def) : bool :=
+  forallb (fun d => calls_ok (fun l => mem_strb (show_ident l) (dnames ds)) (dbody d)) ds.
+Theorem translate_refs_defined {Code Temp} (B : backend Code Temp) cdefs crefs (LO : labels_ok B cdefs crefs) types ds lc c lc' :
+  prog_calls_ok ds = true -> translate B types ds lc = Ok (c, lc') ->
+  forall l, In l (refs crefs c) -> In l (defs cdefs c) \/ l = "cleanup".
+Proof.
+  intros G H l Hl. destruct (translate_refs B cdefs crefs LO _ types ds lc c lc' G H) as [R M].
+  destruct (R l Hl) as [X|[X|(f & Hf & ->)]]; [left; exact X|right; exact X|left].
+  apply mem_strb_In in Hf. unfold dnames in Hf. apply in_map_iff in Hf as (d & E & Hd). rewrite <- E. apply M. exact Hd.
+Qed.
